@@ -18,4 +18,9 @@ pub mod verif_access {
     pub fn dump_ep() -> Vec<u64> { unsafe { (0..64).map(|i| components::EN_PASSANT_SQUARE[i]).collect() } }
     pub fn dump_no_ep() -> u64 { unsafe { components::NO_EN_PASSANT_SQUARE } }
     pub fn dump_side() -> u64 { unsafe { components::SIDE_TO_PLAY } }
+    // the real component look-ups (private in zobrist.rs)
+    pub fn c_piece(player: Player, kind: PieceKind, sq: Square) -> u64 { piece_on_square(player, kind, sq) }
+    pub fn c_castle(player: Player, side: CastleRightsSide) -> u64 { castle_rights(player, side) }
+    pub fn c_ep(sq: Option<Square>) -> u64 { en_passant(sq) }
+    pub fn c_side() -> u64 { side_to_play() }
 }
